@@ -57,7 +57,7 @@ var styleBackup = style.Carapace
 var punct = []string{" ", "&", "<", ">", "'", "\"", "{", "}", "$", "#", "|", "?", "(", ")", ";", "[", "]", "*", "\\", "`", "~", "!", "=", ":", ",", "%", "@", "+", "^", "-", "_", ".", "/"}
 var letters = []string{"a", "b", "c", "d", "e", "f", "o", "x", "A", "B", "F", "O", "X", "E", "R", "0", "1"}
 var controls = []string{"\t", "\n", "\r"}
-var nonascii = []string{"é", "è", "ü", "日", "本", "𝄞", "€", "ß"}
+var nonascii = []string{"é", "è", "ü", "日", "本", "𝄞", "€", "ß", "é", "日", "€", "\u00a0", "\u200d", "\u00ad", "\u3000", "\ue000", "İ", "\u202f"}
 
 func genText(r *rng, maxLen int, exotic int) string {
 	n := r.intn(maxLen + 1)
@@ -202,6 +202,9 @@ func genFmt(r *rng, tier string) interface{} {
 		}
 		if r.chance(4) {
 			v = "~nd/" + v
+		}
+		if r.chance(3) {
+			v = "nd/" + v // the name of a named directory, but no tilde: an ordinary relative path
 		}
 		if r.chance(3) {
 			v += pick(r, []string{"ERR", "ERR1", "_", "E"})
